@@ -36,8 +36,24 @@ type C07Case struct {
 	Ctx          string `json:"ctx,omitempty"`
 	FollowCtx    string `json:"follow_ctx,omitempty"`
 	CtxDeadlineS int    `json:"ctx_deadline_s,omitempty"`
-	HookPoint    string `json:"hook_point,omitempty"`
-	HookSleepUs  int    `json:"hook_sleep_us,omitempty"`
+	// Joiner: a plugin that connects after the other plugins are up and fails during one of
+	// its registration-time requests (Configure or Synchronize); after the first request a
+	// second, healthy plugin (Idx2) joins and has to become active.
+	Joiner      *JoinerSpec `json:"joiner,omitempty"`
+	HookPoint   string      `json:"hook_point,omitempty"`
+	HookSleepUs int         `json:"hook_sleep_us,omitempty"`
+}
+
+// JoinerSpec: the late joiner (Idx) whose Fault strikes during Phase, and the healthy second
+// joiner (Idx2). Fault kinds: error (any form), hang, close (inside the handler), cut (p2r:
+// K bytes into the phase's response; r2p: K bytes into what the runtime sends next, armed when
+// the connection is made (configure) or when the Configure handler returns (synchronize),
+// optionally with a stall), wrongtype, undecodable, garbage.
+type JoinerSpec struct {
+	Idx   int    `json:"idx"`
+	Idx2  int    `json:"idx2"`
+	Phase string `json:"phase"` // configure | synchronize
+	Fault Fault  `json:"fault"`
 }
 
 // PluginSpec describes one plugin of a case.
@@ -260,6 +276,43 @@ func faultGen(t *rapid.T, idx int, slowLeft *int, big bool) Fault {
 	return f
 }
 
+// joinerFaultGen draws what strikes the late joiner during its Configure or Synchronize.
+func joinerFaultGen(t *rapid.T, idx int) Fault {
+	k := rapid.SampledFrom([]string{"error", "cut", "hang", "close", "cut", "error", "undecodable", "wrongtype", "garbage", "cut"}).Draw(t, "jkind")
+	f := Fault{Kind: k}
+	switch k {
+	case "error":
+		f.ErrText = fmt.Sprintf("c07 joiner %02d refuses", idx)
+		f.ErrForm = rapid.SampledFrom([]string{"plain", "status", "wrap", "status"}).Draw(t, "err-form")
+		switch f.ErrForm {
+		case "status":
+			f.ErrCode = rapid.SampledFrom([]int{4, 8, 1, 14, 13, 2}).Draw(t, "err-code")
+		case "wrap":
+			f.ErrSentinel = rapid.SampledFrom(sentinelNames).Draw(t, "err-sentinel")
+		}
+	case "close":
+		f.When = "during"
+	case "cut":
+		f.Dir = rapid.SampledFrom([]string{"p2r", "r2p", "p2r"}).Draw(t, "dir")
+		f.K = rapid.SampledFrom([]int{0, 3, 8, 12, 17, 18, 25, 40, 200}).Draw(t, "k")
+		if f.Dir == "r2p" {
+			f.StallMs = rapid.SampledFrom([]int{0, 0, 20, 100}).Draw(t, "stall")
+		}
+	case "wrongtype":
+		f.Type = rapid.SampledFrom([]int{3, 1, 0, 0xff}).Draw(t, "type")
+	case "undecodable":
+		f.Level = rapid.SampledFrom([]string{"payload", "frame"}).Draw(t, "level")
+		f.Bytes = append([]byte{}, badProto[rapid.IntRange(0, len(badProto)-1).Draw(t, "bad")]...)
+	case "garbage":
+		f.Level = "ttrpc"
+		f.StreamSel = rapid.SampledFrom([]string{"zero", "even", "far"}).Draw(t, "stream")
+		f.Type = rapid.SampledFrom([]int{2, 3, 0}).Draw(t, "type")
+		f.Bytes = rapid.SliceOfN(rapid.Byte(), 0, 32).Draw(t, "bytes")
+		f.DeclLen = uint32(len(f.Bytes))
+	}
+	return f
+}
+
 var thenDelays = []int{0, 5, 1, 20, 45, 100}
 
 // launchedFaultGen draws what goes wrong with a pre-installed plugin: only what a process of
@@ -310,7 +363,18 @@ func genC07(t *rapid.T) C07Case {
 	c.ReqSize = rapid.SampledFrom(sizes).Draw(t, "req-size")
 	c.FollowSize = rapid.SampledFrom([]string{"", "", "", "1m", "", "", "256k", "3m"}).Draw(t, "follow-size")
 	n := rapid.SampledFrom([]int{2, 3, 3, 4, 4, 5}).Draw(t, "plugins")
-	idx := rapid.SliceOfNDistinct(rapid.IntRange(0, 99), n, n, rapid.ID[int]).Draw(t, "indices")
+	withJoiner := rapid.IntRange(0, 5).Draw(t, "joiner") == 0
+	if withJoiner && n > 3 {
+		n = 3 // the two joiners take two of the five places
+	}
+	var idx []int
+	if withJoiner {
+		all := rapid.SliceOfNDistinct(rapid.IntRange(0, 99), n+2, n+2, rapid.ID[int]).Draw(t, "indices+joiners")
+		idx = all[:n]
+		c.Joiner = &JoinerSpec{Idx: all[n], Idx2: all[n+1]}
+	} else {
+		idx = rapid.SliceOfNDistinct(rapid.IntRange(0, 99), n, n, rapid.ID[int]).Draw(t, "indices")
+	}
 	nf := rapid.SampledFrom([]int{1, 1, 2, 1, 1, 2, 1, 2, 3, 1, 2, 0}).Draw(t, "nfaults")
 	if nf > n {
 		nf = n
@@ -342,6 +406,10 @@ func genC07(t *rapid.T) C07Case {
 			}
 		}
 		c.Plugins = append(c.Plugins, ps)
+	}
+	if c.Joiner != nil {
+		c.Joiner.Phase = rapid.SampledFrom([]string{"synchronize", "configure", "synchronize"}).Draw(t, "join-phase")
+		c.Joiner.Fault = joinerFaultGen(t, c.Joiner.Idx)
 	}
 	if rapid.IntRange(0, 3).Draw(t, "hook") == 0 {
 		c.HookPoint = rapid.SampledFrom([]string{"mux.write.payload", "mux.conn.read", "mux.close", "mux.reader.queue"}).Draw(t, "hook-point")
